@@ -26,6 +26,12 @@ def main() -> int:
     wd.daemon = True
     wd.start()
     try:
+        # non-public names of bobocep that were merely renamed get their recorded names back as forwarding aliases, before
+        # any harness module imports or patches them (translate/renames.py)
+        from translate import renames
+        aliased = renames.install_aliases(core.REPO)
+        if aliased:
+            print('NOTE renamed non-public names addressed through aliases: ' + ', '.join(f'{w}.{o}->{n}' for w, o, n in aliased[:12]))
         mod = importlib.import_module('harness.props.' + prop.lower())
         return core.check_main(mod.SPEC, a.tier, a.replay)
     except SystemExit:
